@@ -12,7 +12,7 @@ open ZnVerif.Model ZnVerif.Proofs.Calls
 variable {ν : Type} [NumOps ν]
 
 section mutualBlock
-variable {R : VM ν → VM ν → Prop} [ScopePrims R]
+variable {R : VM ν → VM ν → Prop} [ScopePrims0 R]
 
 set_option maxHeartbeats 1000000 in
 theorem evalStmt_succ (n : Nat) (ih : AllPres R n) (st : Stmt) : Pres R (evalStmt (ν := ν) (n+1) st) := by
@@ -44,8 +44,8 @@ theorem evalClassDecl_succ (n : Nat) (ih : AllPres R n) (st : Stmt) : Pres R (ev
 theorem evalFuncDecl_succ (n : Nat) (st : Stmt) : Pres R (evalFuncDecl (ν := ν) (n+1) st) := by
   cases st <;> rw [Model.evalFuncDecl] <;> pres_tac <;> contradiction
 
-theorem evalCtorDecl_succ (n : Nat) (st : Stmt) : Pres R (evalCtorDecl (ν := ν) (n+1) st) := by
-  cases st <;> rw [Model.evalCtorDecl] <;> pres_tac <;> contradiction
+theorem evalCtorDecl_succ (n : Nat) (st : Stmt) : Pres R (evalCtorDecl (ν := ν) (n+1) st) :=
+  ScopePrims0.evalCtorDecl (n+1) st
 
 end mutualBlock
 
